@@ -2,6 +2,7 @@
 namespace Larking.Expected.C01
 
 def conds_variable_index : List String := [
+   "func (*variable) index(toks tokens) int",
    "range v.toks",
    "if i == n",
    "return -1",
@@ -21,6 +22,7 @@ def conds_variable_index : List String := [
   ]
 
 def conds_path_search : List String := [
+   "func (*path) search(toks tokens, verb string) (*method, params, error)",
    "if n := len(toks); n <= 1",
    "if m, ok := p.methods[verb]; ok",
    "return m, nil, nil",
@@ -42,12 +44,14 @@ def conds_path_search : List String := [
   ]
 
 def conds_path_match : List String := [
+   "func (*path) match(route, verb string) (*method, params, error)",
    "if err := lexPath(l); err != nil",
    "return nil, nil, status.Errorf(codes.NotFound, \"not found: %v\", err)",
    "return p.search(l.tokens(), verb)"
   ]
 
 def conds_path_addRule : List String := [
+   "func (*path) addRule( rule *annotations.HttpRule, desc protoreflect.MethodDescriptor, name string, ) error",
    "typeswitch v := rule.Pattern.(type)",
    "case *annotations.HttpRule_Get",
    "case *annotations.HttpRule_Put",
@@ -103,18 +107,21 @@ def conds_path_addRule : List String := [
   ]
 
 def conds_path_addVariable : List String := [
+   "func (*path) addVariable(toks tokens) *variable",
    "if v, ok := p.findVariable(name); ok",
    "return v",
    "return v"
   ]
 
 def conds_path_addPath : List String := [
+   "func (*path) addPath(parent, value token) *path",
    "if next, ok := p.segments[val]; ok",
    "return next",
    "return next"
   ]
 
 def conds_lexPath : List String := [
+   "func lexPath(l *lexer) error",
    "for",
    "switch r",
    "case '/'",
@@ -134,12 +141,14 @@ def conds_lexPath : List String := [
   ]
 
 def conds_lexPathSegment : List String := [
+   "func lexPathSegment(l *lexer) error",
    "if i := l.acceptRun(isPath); i == 0",
    "return l.errShort()",
    "return l.emit(tokenPath)"
   ]
 
 def conds_lexer_emit : List String := [
+   "func (*lexer) emit(typ tokenType) error",
    "if l.len >= len(l.toks)",
    "return errTokenLimit",
    "return nil"
